@@ -267,7 +267,9 @@ class _StepGraph:
         Args:
             path: The path to the step in the hierarchy.
         """
-        self._sequential_steps.append(path)
+        # a step that replaces one at the same path keeps its place
+        if path not in self._sequential_steps:
+            self._sequential_steps.append(path)
         self._validate()
 
     def get_execution_layers(self) -> List[List[HierarchyPath]]:
